@@ -22,12 +22,16 @@ func checkC17(c *Ctx) {
 		"(a) every entry of tinyfo's operator table has the same rank class order and Go operator as the published table that fc's table is checked against (C08.a); tinyfo's keywords are a subset of fc's with the same token names; " +
 		"(b) tinyfo's precedence loop has the same three facts (stop iff rank < minPrec, right operand at rank+1, entry minPrec 1, node(cur, rhs) in order); " +
 		"(c) tinyfo's driver computes the same output path and .foi skip as fc (C07.d); " +
-		"(d) emission shapes: the closed forms (cell identity kept) of tinyfo's 18 emitters for the constructs both transpilers share were reviewed against fc's emission templates (C01/C03) — fields, arguments, elements, statements and arms in source order, supplied arguments of a partial application inside the closure exactly as fc emits them, conditionals over lazy blocks — and are frozen; the directory is frozen, so any change of an emitter is reported."
+		"(d) emission shapes: the closed forms (cell identity kept) of tinyfo's 18 emitters for the constructs both transpilers share were reviewed against fc's emission templates (C01/C03) — fields, arguments, elements, statements and arms in source order, supplied arguments of a partial application inside the closure exactly as fc emits them, conditionals over lazy blocks — and are frozen; " +
+		"(e) tinyfo is kept 'for record keeping' (README) and its parser/AST builders are imperative code for which normal forms are not faithful closed forms, so beyond the emitters the check is change detection against a reviewed baseline: each of the 256 non-test functions has a canonical typed-syntax digest (locals numbered, comments/positions/formatting/local names immaterial); a different digest is undecided; " +
+		"(f) two lowering facts read off the typed syntax for diagnosability: the `=`/`<>` branch of NewBinOpCall returns the table's function applied to (lhs, rhs) on every path, and parseDestLetDefVar binds the k-th name to the k-th tuple component."
 	r.NotDecided = []string{"everything else: tinyfo's parser (offside handling, match parsing), its per-call type-parameter resolution, and the run-time behaviour of emitted programs"}
 	r.Assumptions = []string{"fc's own emission templates and tables are the reference (decided under C01, C03, C08)"}
 	r.Rule("C17.a", "operator table and keywords agree with fc / the published table", 20)
 	r.Rule("C17.b", "precedence loop facts agree with fc", 1)
 	r.Rule("C17.c", "driver output naming agrees with fc", 1)
+	r.Rule("C17.e", "tinyfo is a record (README): every non-test function still has the canonical typed-syntax digest whose agreement with fc was reviewed", 250)
+	r.Rule("C17.f", "lowering facts outside the emitters: `=`/`<>` always become the call of the table's function on (lhs, rhs); destructuring binds the k-th name to the k-th component type", 2)
 	r.Rule("C17.d", "emission shapes of the shared constructs agree with fc's templates (reviewed closed forms)", 15)
 	t := c.LoadFC("tinyfo")
 	f := c.LoadFC("fc")
@@ -108,4 +112,7 @@ func checkC17(c *Ctx) {
 	}
 	// (d)
 	c.checkPins(t, "C17.d", c17EmitterPins)
+	// (e) (f)
+	checkTinyfoRecord(c, t)
+	checkTinyfoFacts(c, t)
 }
